@@ -15,6 +15,7 @@
 package ggql
 
 import (
+	"math"
 	"strconv"
 )
 
@@ -98,6 +99,10 @@ func (t *float64Scalar) CoerceOut(v interface{}) (interface{}, error) {
 	default:
 		v = nil
 		err = newCoerceErr(tv, "Float64")
+	}
+	if f, ok := v.(float64); ok && err == nil && (math.IsNaN(f) || math.IsInf(f, 0)) {
+		// Not a finite number.
+		return nil, newCoerceErr(f, "Float64")
 	}
 	return v, err
 }
